@@ -446,8 +446,8 @@ def _raise_evidence(repo, cls, mname: str, depth=3, seen=None) -> Optional[Tuple
     None when there is no evidence (the rule then does not treat the call as fallible)."""
     seen = seen if seen is not None else set()
     m = repo.lookup_method(cls, mname) if cls is not None else None
-    if m is None or m.full in seen:
-        return None
+    if m is None or m.full in seen or isinstance(m.node, ast.AsyncFunctionDef):
+        return None      # calling a coroutine function only creates the coroutine, none of its body runs
     seen.add(m.full)
     text, names = None, set()
 
@@ -686,7 +686,18 @@ def r2(ctx):
                     if _is_sub_call(c, tainted) and not any(c is x for x in sub_calls):
                         sub_calls.append(c)
                         deferred.append(c)
-        ctx.floor(R, "subscriber callable invocations", len(sub_calls), 2)
+        # subscriber callables handed to a helper of the class (predicate test / async runner extracted from the loop)
+        delegated = []
+        for c in [c for st in stmts for c in calls(st) if enclosing_fn(c) is fi.node]:
+            if isinstance(c.func, attr_t) and ap(c.func.value) in ("self", "cls") and fi.cls is not None:
+                hm = repo.lookup_method(fi.cls, c.func.attr)
+                if hm is None or hm is fi:
+                    continue
+                hp = [a.arg for a in hm.node.args.args][1:]
+                tp = {hp[i] for i, a in enumerate(c.args) if i < len(hp) and isinstance(a, ast.Name) and a.id in tainted}
+                for hc in [x for x in calls(hm.node) if isinstance(x.func, ast.Name) and x.func.id in tp]:
+                    delegated.append((hm, hc, c))
+        ctx.floor(R, "subscriber callable invocations", len(sub_calls) + len(delegated), 2)
         book = []
         for c in [c for st in stmts for c in calls(st)]:
             if isinstance(c.func, attr_t) and ap(c.func.value) in ("self", "cls"):
@@ -773,20 +784,18 @@ def r2(ctx):
             ctx.ob(R, f"{fi.qual}: {norm(c)} inside a swallowing catch-all try within the loop",
                    _swallowing(c, loop if in_loop else fi.node), ctx.w(fi, c),
                    "subscriber callable not isolated by try/except inside the loop")
-        # subscriber callables handed to a helper of the class (predicate check extracted from the loop)
-        for c in [c for st in stmts for c in calls(st) if enclosing_fn(c) is fi.node]:
-            if isinstance(c.func, attr_t) and ap(c.func.value) in ("self", "cls") and fi.cls is not None:
-                hm = repo.lookup_method(fi.cls, c.func.attr)
-                if hm is None or hm is fi:
-                    continue
-                hp = [a.arg for a in hm.node.args.args][1:]
-                tp = {hp[i] for i, a in enumerate(c.args) if i < len(hp) and isinstance(a, ast.Name) and a.id in tainted}
-                for hc in [x for x in calls(hm.node) if isinstance(x.func, ast.Name) and x.func.id in tp]:
-                    contained = any(tc.section == "body" and any(handler_catches_all(h_) and handler_reraises(h_) == "never"
-                                                                 for h_ in tc.node.handlers) for tc in try_contexts(hc, hm.node))
-                    ok = contained or _swallowing(c, loop if in_loop else fi.node)
-                    ctx.ob(R, f"{hm.qual}: {norm(hc)} (run for each subscriber of {fi.qual}) is isolated", ok, ctx.w(hm, hc),
-                           "a raising subscriber callable propagates through the helper into the notify loop")
+        for hm, hc, c in delegated:
+            if isinstance(hm.node, ast.AsyncFunctionDef):
+                outer = parent(c)
+                ok = isinstance(outer, ast.Call) and call_attr(outer) == "create_logged_task" and any(a is c for a in outer.args)
+                ctx.ob(R, f"{hm.qual}: deferred {norm(hc)} (coroutine started for each subscriber of {fi.qual}) runs in "
+                          f"create_logged_task", ok, ctx.w(fi, c), "async handler not isolated in its own logged task")
+                continue
+            contained = any(tc.section == "body" and any(handler_catches_all(h_) and handler_reraises(h_) == "never"
+                                                         for h_ in tc.node.handlers) for tc in try_contexts(hc, hm.node))
+            ok = contained or _swallowing(c, loop if in_loop else fi.node)
+            ctx.ob(R, f"{hm.qual}: {norm(hc)} (run for each subscriber of {fi.qual}) is isolated", ok, ctx.w(hm, hc),
+                   "a raising subscriber callable propagates through the helper into the notify loop")
         _one_shot_obligation(ctx, R, repo, nf, fi, cfg, loop if in_loop else None, head, sync, deferred, tainted)
         for c in deferred:
             d = enclosing_fn(c)
@@ -1644,7 +1653,20 @@ def r10(ctx):
                 ctx.ob(R, f"{mod.rel}: weakref.proxy field `{norm(t)}` is not used as a truth value", False,
                        f"{mod.rel}:{t.lineno}", "bool() of a dead weakref.proxy raises ReferenceError (it never means 'gone'): "
                        "kill_matching_tasks runs bare inside handle_region_changed / handle_session_closed")
-    ctx.ob(R, f"{sc.name}: weakref.proxy fields {sorted(proxies)} never truth-tested", n_truth == 0, f"{mod.rel}:{sc.node.lineno}")
+    # ... nor dereferenced outside a try that handles ReferenceError: every attribute access on a dead proxy raises
+    for f_ in [f_ for f_ in repo.all_funcs if f_.module is mod and f_.parent_fn is None]:
+        for x in walk(f_.node, into_defs=True):
+            if isinstance(x, ast.Attribute) and isinstance(x.value, ast.Attribute) and x.value.attr in proxies and \
+                    not (isinstance(x.value.value, ast.Name) and x.value.value.id == "weakref"):
+                handled = any(tc.section == "body" and any(
+                    (handler_catches_all(h_) or "ReferenceError" in handler_names(h_)) and handler_reraises(h_) != "always"
+                    for h_ in tc.node.handlers) for tc in try_contexts(x))
+                n_truth += 0 if handled else 1
+                ctx.ob(R, f"{f_.qual}: `{norm(x)}` does not dereference a weakref.proxy field outside a ReferenceError handler",
+                       handled, ctx.w(f_, x), "attribute access on a dead weakref.proxy raises ReferenceError: "
+                       "kill_matching_tasks runs bare inside handle_region_changed / handle_session_closed")
+    ctx.ob(R, f"{sc.name}: weakref.proxy fields {sorted(proxies)} never truth-tested or dereferenced bare", n_truth == 0,
+           f"{mod.rel}:{sc.node.lineno}")
 
 
 r4 = r6 = r4_r6
